@@ -2,6 +2,7 @@
 From Coq Require Import Bool ZArith List.
 From K Require Import Lib.Types Model.Machine Model.Bus Model.Cost Model.Addressing Model.Exec Spec.Price Spec.ISA
   Proofs.PriceProofs Proofs.FlagProofs Proofs.AluProofs Proofs.RegProofs Proofs.StepProofs.
+From K Require Import Spec.Domains Proofs.StepRefines Proofs.ChargeProofs.
 Open Scope Z_scope.
 
 (* every term of a handler's charge is count x the C19 price at the stated address: instruction fetches at the
@@ -41,6 +42,30 @@ Proof.
   - apply alu2_rn_refines; assumption.
 Qed.
 
+(* for every form that the cycle table lists with one instruction fetch and nothing else (register ALU / MOV / bit forms,
+   byte immediates, ADDS/SUBS, STC.B), the charge the end-to-end step theorems of C01-C04 carry IS the reference's total:
+   cycles_ref priced by the C19 price list at the instruction's address *)
+Theorem register_form_total_charge :
+  forall i s, one_fetch_form i = true -> bytes_ok (cbus s) -> dom_c19 (reg (cbus s) DRCRA) 0 1 (pc s) = true ->
+    cs KI 1 (post_fetch s) = Ok (charge_ref i 2 s) (post_fetch s).
+Proof. exact register_form_total_charge_proof. Qed.
+
+(* the charge expression of every two-byte branch / jump / call / return / trap handler (ctl_suffix: the expression the
+   end-to-end step theorems of C05 / C06 carry), evaluated on the final state, IS the reference total - the byte-sized
+   partial sums never wrap (every price is between 1 and 14 states) *)
+Theorem control_form_total_charge :
+  forall i s s' m,
+    ctl_suffix i s = Some m -> ctl_dom i s ->
+    b_io1 (cbus s') = b_io1 (cbus s) -> opc s' = pc s -> bytes_ok (cbus s) ->
+    m s' = Ok (charge_ref i 2 s) s'.
+Proof. exact control_form_total_charge_proof. Qed.
+
+Theorem price_between_1_and_14 : forall s k a, 0 <= k <= 5 -> 1 <= price_at s k a <= 14.
+Proof. exact price_at_range. Qed.
+
 Print Assumptions fetch_cycles_price.
 Print Assumptions addressed_cycles_price.
 Print Assumptions alu_rr_charge_value_independent.
+Print Assumptions register_form_total_charge.
+Print Assumptions control_form_total_charge.
+Print Assumptions price_between_1_and_14.
